@@ -58,9 +58,13 @@ func vfScenSetup(sc vfScenario) (*vfScenEnv, error) {
 	}
 	if sc.Dir {
 		for i := 0; i < sc.Files; i++ {
+			// names that are string prefixes of one another: "tree/emptydir", a directory this transfer creates, and
+			// "tree/emptydir.f1.bin", a file next to it
 			rel := filepath.Join("tree", fmt.Sprintf("f%d.bin", i))
 			if i%3 == 2 {
 				rel = filepath.Join("tree", "sub", fmt.Sprintf("f%d.bin", i))
+			} else if i%3 == 1 {
+				rel = filepath.Join("tree", fmt.Sprintf("emptydir.f%d.bin", i))
 			}
 			write(rel, i)
 		}
@@ -70,6 +74,10 @@ func vfScenSetup(sc vfScenario) (*vfScenEnv, error) {
 	} else {
 		for i := 0; i < sc.Files; i++ {
 			rel := fmt.Sprintf("f%d.bin", i)
+			if sc.Files > 1 && i <= 1 {
+				// one created path is a string prefix of the next, also after both got a fresh ".0" name: "f1.0" and "f1.0.bin.0"
+				rel = []string{"f1", "f1.0.bin"}[i]
+			}
 			write(rel, i)
 			e.paths = append(e.paths, filepath.Join(e.src, rel))
 			e.names = append(e.names, rel)
